@@ -4,6 +4,8 @@ import MemVerif.Model.Buckets
 import MemVerif.Drv.Stack
 import MemVerif.Drv.Pool
 import MemVerif.Model.Debug
+import MemVerif.Model.ExcSafe
+import MemVerif.Model.Joint
 /-!
 Line-protocol driver: reads one operation per line on stdin, runs the executable model, prints the
 model's result in the harness' canonical format. `tools/` diff the two streams.
@@ -59,6 +61,49 @@ def llLine (args : List String) : Option String :=
     some (" ".intercalate ("reports" :: r.map toString))
   | _ => none
 
+def optNat (s : String) : Option Nat := if s = "-" then none else s.toNat?
+
+/-- C20: the event log of one helper call (followed by the deleter / `reset()` when it succeeded) -/
+def spLine (args : List String) : Option String :=
+  match args with
+  | [h, s, a, f] =>
+    if h = "unique" || h = "shared" then
+      let fail := f = "1"
+      some (evsStr (allocateUnique (nat! s) (nat! a) fail ++ (if fail then [] else deleteUnique (nat! s) (nat! a))))
+    else none
+  | ["uarr", n, s, a, k] =>
+    let fail := optNat k
+    some (evsStr (allocateUniqueArray (nat! n) (nat! s) (nat! a) fail ++
+      (if fail.isSome then [] else deleteUniqueArray (nat! n) (nat! s) (nat! a))))
+  | "joint" :: o :: e :: a :: st :: k :: n1 :: n2 :: n3 :: _ =>
+    let fail := optNat k
+    let ms := [nat! n1, nat! n2, nat! n3]
+    some (evsStr (jointCreate (nat! o) (nat! e) (nat! a) ms (nat! st) fail ++
+      (if fail.isSome then [] else jointReset (nat! o) (nat! e) (nat! a) ms (nat! st))))
+  | _ => none
+
+/-- C11: where three member arrays of a joint object end up -/
+def jtLine (args : List String) : Option String :=
+  match args with
+  | [o, e, s, a, form, n1, n2, n3] =>
+    let obj := 65536
+    let objSize := nat! o
+    let j0 := Joint.create obj objSize (nat! e)
+    let range := form = "range"
+    let step (acc : Option (Joint × List String)) (n : Nat) : Option (Joint × List String) :=
+      match acc with
+      | none => none
+      | some (j, offs) =>
+        let r := if range then j.arrayRange n (nat! s) (nat! a) else j.arraySized n (nat! s) (nat! a)
+        match r.2 with
+        | .ok p => some (r.1, offs ++ [if range && n = 0 then "-" else toString (p - obj)])
+        | _ => none
+    match [nat! n1, nat! n2, nat! n3].foldl step (some (j0, [])) with
+    | none => some "throw out_of_fixed_memory"
+    | some (j, offs) =>
+      some s!"ok {" ".intercalate offs} top={j.top - obj} left={j.capacityLeft} release={j.releaseSize objSize}"
+  | _ => none
+
 structure DState where
   stack : StackSt := {}
   pool : PoolSt := {}
@@ -91,6 +136,14 @@ def step (ds : DState) (line : String) : DState × String :=
       else if subj = "static" then
         let (st, res, up, sts) := staticStep ds.stack rest
         fin st (res, up, sts)
+      else if subj = "sp" then
+        match spLine rest with
+        | some r => (ds, mkLine (secs.getD 0 "") "" r "" "-")
+        | none => (ds, s!"bad-op {line}")
+      else if subj = "jt" then
+        match jtLine rest with
+        | some r => (ds, mkLine (secs.getD 0 "") "" r "" "-")
+        | none => (ds, s!"bad-op {line}")
       else if subj = "ll" then
         match llLine rest with
         | some r => (ds, mkLine (secs.getD 0 "") "" r "" "-")
